@@ -5,6 +5,7 @@ SDO transport or behind real PDO maps on the SimBus; each statusword sample whil
 transition is pending is a choice point (fired / not yet).  Enumeration: all 65536 statuswords,
 all operation modes x supported-mode masks.
 """
+import itertools
 import struct
 
 from mc import kernel, simenv
@@ -213,19 +214,32 @@ def run_opmode(case, st):
     masks += [0, 0xFFFFFFFF]
     if "mask" in case:
         masks = [case["mask"]]
-    for mask in masks:
+    ALL = sum(bits)
+    prevs = [case["prev"]] if "prev" in case else [None, "complement", "all"]
+    for mask, prev in itertools.product(masks, prevs):
         simenv.new_world()
-        drive = D.Drive402(D.SOD, supported=mask)
         net = canopen.Network()
         simenv.SimBus("inline").attach(net, "m")
-        node = BaseNode402(3, od())
-        net.add_node(node)
-        node.sdo.upload = lambda i, s: (setattr(simenv.W, "now", simenv.W.now + 0.001), drive.upload(i, s))[1]
-        node.sdo.download = lambda i, s, d, force_segment=False: drive.download(i, s, d)
+
+        def attach(drv):
+            n = BaseNode402(3, od())
+            net.add_node(n)
+            n.sdo.upload = lambda i, s: (setattr(simenv.W, "now", simenv.W.now + 0.001), drv.upload(i, s))[1]
+            n.sdo.download = lambda i, s, d, force_segment=False: drv.download(i, s, d)
+            return n
+        if prev is not None:
+            # history: another node object with the same node id served a drive with a different mask (drive exchanged)
+            pmask = (ALL & ~mask) if prev == "complement" else ALL
+            try:
+                attach(D.Drive402(D.SOD, supported=pmask)).op_mode = name
+            except Exception:  # noqa: BLE001
+                pass
+        drive = D.Drive402(D.SOD, supported=mask)
+        node = attach(drive)
         st.evaluations += 1
         st.nontrivial.add((name, mask))
         supported = D.MODE_SUPPORT_BIT[name] & mask == D.MODE_SUPPORT_BIT[name]
-        rc = dict(case, mask=mask)
+        rc = dict(case, mask=mask, prev=prev)
         try:
             node.op_mode = name
             err = None
